@@ -753,6 +753,16 @@ JavaExprGen.tla / TraceJavaExpr.tla + gen/javaexpr.py (builtin expressions: flat
         with a negative second operand, -Q1
   /tmp/seeded/C12-3 (javacode.c: | and ^ get swapped precedence levels)                                CAUGHT  3 violations, nested
         SIntXOr(SIntOr(..), ..), SIntXOr(.., SIntOr(..)), SIntNot(SIntOr(..)) at -Q1/-Q3
+  Further mutations through bin/seedtest (quick tier):
+  M8  foamj/Math.java shiftDn(BigInteger): plain shiftRight (rounds towards minus infinity)          CAUGHT  4 violations (corpus
+        c_bint_shift_neg at every level + flat BIntShiftDn of a negative)
+  M9  javacode.c Plus precedence 11 -> 9                                                              CAUGHT  nested pairs with + as
+        parent of << / >> (SIntPlus(SIntShiftDn(..), ..), SIntNext(SIntShiftUp(..)) ..): `a >> b + c`
+  M10 genjava.c SIntIsPos: JCO_OP_GT -> JCO_OP_GE                                                     CAUGHT  20 violations (flat
+        SIntIsPos(0), generated programs and J6_recursion at -Q3/-Q9)
+  Corrupted observations (TraceJavaExpr.tla, 40 nested cases): faithful trace -> rejected = 0; one printed value + 1 -> REJECT with the
+  expected value; every result missing -> 40 REJECT; an argument dropped from a tree -> Progress violated (machinery error);
+  the width-dependent expression SIntPlus(2^31-1, 1) -> OUTSIDE (not judged; the check treats outside > 0 as a machinery error).
   Unchanged tree: exit 0 with VERIF_SEED = default, 1, 2, 3.  New findings of the unchanged tree (all Java route, reproduced by hand with
   gen/c12_repro/builtins_on_java.as): BIntLength of negatives, BIntMod with negative modulus (exception) / negative dividend (residue vs
   remainder, root = C11 finding), unsigned Byte as signed byte, SIntPlusMod / SIntTimesMod overflow in 32 bits; candidate patches
